@@ -215,19 +215,39 @@ fn interior_dual(rng: &mut Rng, c: &SupportedConeT<f64>) -> Vec<f64> {
     }
 }
 
+fn dyadic_flag(u: f64) -> bool {
+    ((u * 1.0e6) as u64) % 2 == 0
+}
+
 pub fn random_cone(rng: &mut Rng, kinds: &[u8]) -> SupportedConeT<f64> {
     match *rng.pick(kinds) {
         0 => ZeroConeT(1 + rng.below(3)),
         1 => NonnegativeConeT(1 + rng.below(4)),
         2 => SecondOrderConeT(2 + rng.below(5)),
         3 => ExponentialConeT(),
-        4 => PowerConeT(0.1 + 0.8 * rng.unit()),
+        4 => {
+            // half of the exponents are short dyadics k/64 (same number of draws either way), so
+            // that exact membership of iterates in the power cone is decidable in the Coq checkers
+            let a = 0.1 + 0.8 * rng.unit();
+            PowerConeT(if dyadic_flag(a) { ((a * 64.0).round().clamp(1.0, 63.0)) / 64.0 } else { a })
+        }
         5 => {
             let d1 = 2 + rng.below(2);
             let mut a: Vec<f64> = (0..d1).map(|_| 0.2 + rng.unit()).collect();
+            let flag = dyadic_flag(a[0]);
             let s: f64 = a.iter().sum();
             for x in a.iter_mut() {
                 *x /= s;
+            }
+            if flag {
+                let mut ps: Vec<f64> = a[..d1 - 1].iter().map(|x| (x * 64.0).round().max(1.0)).collect();
+                let last = 64.0 - ps.iter().sum::<f64>();
+                if last >= 1.0 {
+                    ps.push(last);
+                    for (x, p) in a.iter_mut().zip(ps.iter()) {
+                        *x = p / 64.0;
+                    }
+                }
             }
             // make the weights sum to one exactly enough for the constructor's check
             let s2: f64 = a[..d1 - 1].iter().sum();
